@@ -6,10 +6,12 @@ CONSTANTS NP = 2 NA = 1 NS = 2 V6 = {} BlackAddr = {} BlackMid = {} IpCap = 1 In
 VIEW NoRetOp
 INVARIANT TypeOK
 INVARIANT LookupsAgree
+INVARIANT HistoryAgrees
 INVARIANT BlacklistedNeverVerified
 INVARIANT SnapshotRoundTrip
 PROPERTY QueriesPure
 PROPERTY RemovedIsGone
+PROPERTY RemovedIsClean
 PROPERTY ReAddWorks
 PROPERTY ArgumentsNotRetained
 PROPERTY OnlyTheNamedPeer
